@@ -10,6 +10,8 @@ Behaviours of a target:
   refuse      connect() fails with ECONNREFUSED (xrcmd retries with back-off)          -> "connect: Connection refused"
   mute        rsh peer accepts, reads the request, never answers the handshake         -> "read: protocol failure: timed out"
   talkhang    rsh peer answers, sends one line, keeps the connection open (needs -u)   -> "command timeout"
+  chatty      local command (exec module) that prints a line every 0.2 s for ever (needs -u): when the deadline
+              passes the worker is relaying output, not sitting in xpoll                -> "command timeout"
 """
 import concurrent.futures
 import os
@@ -123,7 +125,7 @@ def build_shim(ctx):
 def make_helper(ctx):
     helper = os.path.join(ctx.scratch, "c07exec.sh")
     with open(helper, "w") as f:
-        f.write("#!/bin/sh\necho out-$1\n")
+        f.write("#!/bin/sh\ncase $1 in\n c*) while :; do echo x-$1; sleep 0.2; done;;\n *) echo out-$1;;\nesac\n")
     os.chmod(helper, 0o755)
     return helper
 
@@ -131,14 +133,15 @@ def make_helper(ctx):
 def gen_case(rng, idx, thorough, must=None):
     """one mixed run; every timing parameter small"""
     ct = rng.choice([1, 2])
-    ut = 2 if must == "talkhang" else (rng.choice([0, 0, 2]) if thorough else rng.choice([0, 2]))
+    ut = 2 if must in ("talkhang", "chatty") else (rng.choice([0, 0, 2]) if thorough else rng.choice([0, 2]))
     hosts = []
     nexec = rng.randrange(1, 4)
     for k in range(nexec):
         hosts.append(("e%d" % k, "exec"))
     pool = {"talk": list(TALK), "mute": list(MUTE), "talkhang": list(TALKHANG), "hang": list(SHIMMED[:3]),
             "refuse": list(SHIMMED[3:])}
-    kinds = ["talk", "hang", "mute", "refuse"] + (["talkhang"] if ut > 0 else [])
+    pool["chatty"] = ["c0", "c1"]
+    kinds = ["talk", "hang", "mute", "refuse"] + (["talkhang", "chatty"] if ut > 0 else [])
     must = must or rng.choice(["hang", "hang", "mute", "refuse"])   # every case has a failing host
     chosen = [must] + [rng.choice(kinds) for _ in range(rng.randrange(1, 4))]
     for kd in chosen:
@@ -166,7 +169,7 @@ def expected_wall(case, refuse=None):
             per = max(per, ct + WDOG_POLL)
         elif kd == "refuse":
             per = max(per, refuse if refuse is not None else ct + WDOG_POLL)
-        elif kd == "talkhang":
+        elif kd in ("talkhang", "chatty"):
             per = max(per, ut + WDOG_POLL + 0.5)
     rounds = 1 if case["fanout"] >= len(case["hosts"]) else 2
     return per * rounds
@@ -177,7 +180,7 @@ def run_case(exe, shim, helper, case, scratch, hard_timeout=None):
         hard_timeout = expected_wall(case, refuse=REFUSE_OBSERVED) + 20
     script = ";".join("%s=%s" % (a, "hang" if kd == "hang" else "refuse:0") for a, kd in case["hosts"]
                       if kd in ("hang", "refuse"))
-    words = ",".join(("exec:" + a) if kd == "exec" else a for a, kd in case["hosts"])
+    words = ",".join(("exec:" + a) if kd in ("exec", "chatty") else a for a, kd in case["hosts"])
     argv = [exe, "-R", "rsh", "-t", str(case["ct"]), "-f", str(case["fanout"])]
     if case["ut"] > 0:
         argv += ["-u", str(case["ut"])]
@@ -200,7 +203,8 @@ def run_case(exe, shim, helper, case, scratch, hard_timeout=None):
 # host is reported as refused when its retries end before the connect timeout, and as timed out when the
 # connect timeout ends the retries (repaired xrcmd.c: an interrupted back-off sleep is the expired timeout)
 REPORT = {"hang": (": connect: timed out",), "mute": (": read: protocol failure: timed out",),
-          "refuse": (": connect: Connection refused", ": connect: timed out"), "talkhang": (": command timeout",)}
+          "refuse": (": connect: Connection refused", ": connect: timed out"), "talkhang": (": command timeout",),
+          "chatty": (": command timeout",)}
 
 
 def judge(case, r, peer, slack):
@@ -227,6 +231,8 @@ def judge(case, r, peer, slack):
         else:
             if kd == "talkhang" and "%s: first-%s" % (a, a) not in outl:
                 fun.append(("real:output-lost", "%s: the line sent before the hang was not relayed" % a))
+            if kd == "chatty" and "%s: x-%s" % (a, a) not in outl:
+                fun.append(("real:output-lost", "%s: nothing of what it printed before the deadline was relayed" % a))
             want = " | ".join(a + w for w in REPORT[kd])
             if not any(l.startswith("pdsh@") and any(l.endswith(a + w) for w in REPORT[kd]) for l in errl):
                 fun.append(("real:not-reported:" + kd, "%s (%s): no line `...%s` on stderr; stderr was %r" %
@@ -289,7 +295,7 @@ def run_part(ctx, cov, quick):
         helper = make_helper(ctx)
         exe = os.path.join(repo, "src/pdsh/pdsh")
         n = 8 if quick else 40
-        fixed = ["hang", "mute", "refuse", "talkhang", "hang"]
+        fixed = ["hang", "mute", "refuse", "talkhang", "chatty", "hang"]
         cases = [gen_case(ctx.rng, i, not quick, must=fixed[i] if i < len(fixed) else None) for i in range(n)]
         slack = 4.0
 
